@@ -45,7 +45,7 @@ STUB = ["the scenario files live in the run's own scratch directory on the real 
 ASSUMPTIONS = ["run-spec overrides are generated for DSL models only, as the property says",
                "stop times lie on the grid of (start, dt)", "constants given as strings are numeric literals"]
 FAULT_KINDS = []
-PROBES = ["files_read_again_by_a_second_bptk", "session_over_scenarios_on_different_grids", "step_settings_expire_with_the_session", "sparse_observation", "observed_together_with_sibling", "sibling_on_another_grid", "channel_dict", "channel_files", "files_split_over_two", "base_constants_inherited", "base_points_inherited", "xmile_sourced_scenario",
+PROBES = ["base_value_edited_in_the_file_and_scenario_reloaded", "files_read_again_by_a_second_bptk", "session_over_scenarios_on_different_grids", "step_settings_expire_with_the_session", "sparse_observation", "observed_together_with_sibling", "sibling_on_another_grid", "channel_dict", "channel_files", "files_split_over_two", "base_constants_inherited", "base_points_inherited", "xmile_sourced_scenario",
           "runspec_override_at_registration", "setting_between_two_runs", "setting_after_reset", "string_valued_constant",
           "scenario_without_overrides"]
 EXHAUSTIVE = {"quick": False, "thorough": False}
@@ -333,6 +333,54 @@ def execute(case):
                                 break
                         for v in r3.violations:
                             res.violate("C07.scenario-differs-from-fresh-model", dict(v.detail, clause=v.clause, reader="a second bptk() on the unchanged files"))
+                    if not res.violations and m.get("base_constants") and not cfg.get("xmile"):
+                        # a base constant is edited in the scenario FILE and one scenario that inherits it is reloaded
+                        # (bptk.reset_scenario): the reloaded scenario runs with what the file says now
+                        inherits = [sn for sn, sd in m["scenarios"].items() if any(c_ not in (sd.get("constants") or {}) for c_ in m["base_constants"])]
+                        if inherits:
+                            sn = sorted(inherits)[0]
+                            cname = sorted(c_ for c_ in m["base_constants"] if c_ not in (m["scenarios"][sn].get("constants") or {}))[0]
+                            newv = 6.5
+                            sdir = os.path.join(workdir, "scenarios")
+                            edited = False
+                            # (the twins of the history wrote and removed files of their own in this directory: the files are
+                            #  written afresh, as they were, before one of them is edited)
+                            class _W:
+                                pass
+                            w5 = _W()
+                            w5._cleanup = write_files(cfg, workdir)
+                            holder.append(w5)
+                            import importlib
+                            importlib.invalidate_caches()
+                            for fn in sorted(os.listdir(sdir)):
+                                if not fn.endswith(".json"):
+                                    continue
+                                with open(os.path.join(sdir, fn)) as f:
+                                    doc = json.load(f)
+                                blk = doc.get(m["name"])
+                                if isinstance(blk, dict) and cname in (blk.get("base_constants") or {}):
+                                    blk["base_constants"][cname] = newv
+                                    with open(os.path.join(sdir, fn), "w") as f:
+                                        json.dump(doc, f)
+                                    edited = True
+                            if edited:
+                                res.probe("base_value_edited_in_the_file_and_scenario_reloaded")
+                                try:
+                                    w.bptk.reset_scenario(scenario_manager=m["name"], scenario=sn)
+                                    key = (m["name"], sn)
+                                    sh = copy.deepcopy(w.reg_shadow[key])
+                                    sh["constants"][cname] = newv
+                                    w.shadow[key] = sh
+                                    r4 = RunResult()
+                                    w_res, w.res = w.res, r4
+                                    try:
+                                        w.check_scenario(key, "base value edited in the file, scenario reloaded")
+                                    finally:
+                                        w.res = w_res
+                                    for v in r4.violations:
+                                        res.violate("C07.scenario-differs-from-fresh-model", dict(v.detail, clause=v.clause, after="bptk.reset_scenario on an edited file"))
+                                except Exception as e:
+                                    res.violate("C07.operation-raised", {"op": "reset_scenario after a file edit", "exception": type(e).__name__, "message": str(e)[:120]})
                     for w2 in holder:
                         cleanup_files(w2)
             finally:
